@@ -1780,6 +1780,18 @@ class Deb822ParagraphElement(Deb822Element, Deb822ParagraphToStrWrapperMixin, AB
         # type: () -> Deb822ParagraphElement
         return self
 
+    def _ensure_final_newline(self):
+        # type: () -> None
+        """Supply the newline of the last field if the file omitted its final newline
+
+        Must be called before anything is placed after the (current) last field.
+        """
+        last_kvpair = None
+        for last_kvpair in self.iter_parts():
+            pass
+        if isinstance(last_kvpair, Deb822KeyValuePairElement):
+            last_kvpair.value_element.add_final_newline_if_missing()
+
     def order_last(self, field):
         # type: (ParagraphKey) -> None
         """Re-order the given field so it is "last" in the paragraph"""
@@ -2099,12 +2111,14 @@ class Deb822NoDuplicateFieldsParagraphElement(Deb822ParagraphElement):
         # type: (ParagraphKey) -> None
         """Re-order the given field so it is "last" in the paragraph"""
         unpacked_field, _, _ = _unpack_key(field, raise_if_indexed=True)
+        self._ensure_final_newline()
         self._kvpair_order.order_last(unpacked_field)
 
     def order_first(self, field):
         # type: (ParagraphKey) -> None
         """Re-order the given field so it is "first" in the paragraph"""
         unpacked_field, _, _ = _unpack_key(field, raise_if_indexed=True)
+        self._ensure_final_newline()
         self._kvpair_order.order_first(unpacked_field)
 
     def order_before(self, field, reference_field):
@@ -2114,6 +2128,7 @@ class Deb822NoDuplicateFieldsParagraphElement(Deb822ParagraphElement):
         The reference field must be present."""
         unpacked_field, _, _ = _unpack_key(field, raise_if_indexed=True)
         unpacked_ref_field, _, _ = _unpack_key(reference_field, raise_if_indexed=True)
+        self._ensure_final_newline()
         self._kvpair_order.order_before(unpacked_field, unpacked_ref_field)
 
     def order_after(self, field, reference_field):
@@ -2124,6 +2139,7 @@ class Deb822NoDuplicateFieldsParagraphElement(Deb822ParagraphElement):
         """
         unpacked_field, _, _ = _unpack_key(field, raise_if_indexed=True)
         unpacked_ref_field, _, _ = _unpack_key(reference_field, raise_if_indexed=True)
+        self._ensure_final_newline()
         self._kvpair_order.order_after(unpacked_field, unpacked_ref_field)
 
     def iter_keys(self):
@@ -2170,6 +2186,9 @@ class Deb822NoDuplicateFieldsParagraphElement(Deb822ParagraphElement):
             # way
             key = value.field_name
         original_value = self._kvpair_elements.get(key)
+        if original_value is None:
+            # The new field is placed after the (current) last field
+            self._ensure_final_newline()
         self._kvpair_elements[key] = value
         self._kvpair_order.append(key)
         if original_value is not None:
@@ -2235,6 +2254,8 @@ class Deb822DuplicateFieldsParagraphElement(Deb822ParagraphElement):
         key, index, name_token = _unpack_key(field)
         nodes = self._kvpair_elements[key]
         nodes_being_relocated = []
+        # Any relocation can place a field after the (current) last field
+        self._ensure_final_newline()
 
         if name_token is not None or index is not None:
             single_node = self._resolve_to_single_node(nodes, key, index, name_token)
@@ -2456,6 +2477,7 @@ class Deb822DuplicateFieldsParagraphElement(Deb822ParagraphElement):
                       " in the first place.  Please index-less key or ({key}, 0) if you" \
                       " want to add the field."
                 raise KeyError(msg.format(key=key, index=index))
+            self._ensure_final_newline()
             node = self._kvpair_order.append(value)
             if key not in self._kvpair_elements:
                 self._kvpair_elements[key] = [node]
@@ -2706,6 +2728,10 @@ class Deb822FileElement(Deb822Element):
         # to be sure.  Otherwise we would have to check that there is an empty line before that
         # comment and that is too much effort.
         if tail_element and not isinstance(tail_element, Deb822WhitespaceToken):
+            if isinstance(tail_element, Deb822ParagraphElement):
+                # The separator below must not double as the missing final newline
+                # of the previous paragraph (or the two paragraphs would be merged).
+                tail_element._ensure_final_newline()
             self._token_and_elements.append(self._set_parent(Deb822WhitespaceToken('\n')))
         self._token_and_elements.append(self._set_parent(paragraph))
         paragraph.parent_element = self
